@@ -22,7 +22,7 @@ PARAMS = {
     "TLReconstruct": ("l", "unify"), "TLUpdate": ("l",), "TreeMigrate": ("t", "n", "unify"), "TreeClone": ("t", "nsarg"),
     "TAAdd": ("a", "t"), "TARead": ("a", "srcs"), "CMNewSeq": ("m", "t"), "CMSetItem": ("m", "t"),
     "CMMigrate": ("m", "n", "unify"), "CMReconstruct": ("m", "unify"), "CMUpdate": ("m",), "CMFromDict": ("keys", "nsarg"),
-    "CMClone": ("m", "nsarg"), "DSRead": ("src", "nsarg"), "DSAddList": ("l",), "DSAddMat": ("m",), "DSNewList": ("nsarg",),
+    "CMClone": ("m", "nsarg"), "DSRead": ("src", "nsarg"), "DSReadBlocks": ("blocks", "nsarg"), "DSAddList": ("l",), "DSAddMat": ("m",), "DSNewList": ("nsarg",),
     "DSNewMat": ("nsarg",), "DSAttach": ("n",), "DSDetach": (), "DSUnify": ("nsarg",),
 }
 
@@ -62,6 +62,32 @@ def nexus_of(src):
         out += ["BEGIN TREES;"]
         out += ["  TREE t%d = [&R] %s" % (i + 1, newick_of(t)) for i, t in enumerate(src["trees"])]
         out += ["END;"]
+    return "\n".join(out) + "\n"
+
+
+def nexml_of(blocks):
+    """a NeXML document with one <otus> and one <trees> element per block (star trees, as newick_of)"""
+    out = ['<?xml version="1.0" encoding="ISO-8859-1"?>',
+           '<nex:nexml version="0.9" xmlns="http://www.nexml.org/2009" xmlns:nex="http://www.nexml.org/2009" '
+           'xmlns:xsi="http://www.w3.org/2001/XMLSchema-instance" xmlns:xml="http://www.w3.org/XML/1998/namespace">']
+    esc = lambda x: x.replace("&", "&amp;").replace('"', "&quot;").replace("<", "&lt;")
+    for b, blk in enumerate(blocks):
+        out.append('<otus id="ns%d" label="block%d">' % (b, b))
+        for i, lab in enumerate(blk["taxa"]):
+            out.append('  <otu id="ns%d_t%d" label="%s"/>' % (b, i, esc(lab)))
+        out.append('</otus>')
+    for b, blk in enumerate(blocks):
+        out.append('<trees id="trees%d" otus="ns%d">' % (b, b))
+        for k, tr in enumerate(blk["trees"]):
+            out.append('  <tree id="tree%d_%d" xsi:type="nex:FloatTree">' % (b, k))
+            out.append('    <node id="n%d_%d_r" root="true"/>' % (b, k))
+            for j, lab in enumerate(tr):
+                out.append('    <node id="n%d_%d_%d" otu="ns%d_t%d"/>' % (b, k, j, b, blk["taxa"].index(lab)))
+            for j, lab in enumerate(tr):
+                out.append('    <edge id="e%d_%d_%d" source="n%d_%d_r" target="n%d_%d_%d"/>' % (b, k, j, b, k, b, k, j))
+            out.append('  </tree>')
+        out.append('</trees>')
+    out.append('</nex:nexml>')
     return "\n".join(out) + "\n"
 
 
@@ -248,7 +274,14 @@ class World(object):
         if name == "TLCtorTrees":
             return (lambda: d.TreeList([T[t] for t in a["ts"]], **nskw(a["nsarg"]))), "TreeList(iterable)"
         if name == "TLMigrate":
-            return (lambda: L[a["l"]].migrate_taxon_namespace(N[a["n"]], unify_taxa_by_label=a["unify"])), "migrate"
+            via = pick("migrate", "assign+reconstruct")
+            if via == "migrate":
+                return (lambda: L[a["l"]].migrate_taxon_namespace(N[a["n"]], unify_taxa_by_label=a["unify"])), via
+
+            def reassign():
+                L[a["l"]].taxon_namespace = N[a["n"]]
+                L[a["l"]].reconstruct_taxon_namespace(unify_taxa_by_label=a["unify"])
+            return reassign, via
         if name == "TLReconstruct":
             return (lambda: L[a["l"]].reconstruct_taxon_namespace(unify_taxa_by_label=a["unify"])), "reconstruct"
         if name == "TLUpdate":
@@ -294,6 +327,13 @@ class World(object):
                 cs = bool(N[a["nsarg"]].is_case_sensitive) if a["nsarg"] else False
             data = nexus_of(a["src"])
             return (lambda: ds.read(data=data, schema="nexus", case_sensitive_taxon_labels=cs, **nskw(a["nsarg"]))), "read"
+        if name == "DSReadBlocks":
+            if ds.attached_taxon_namespace is not None:
+                cs = bool(ds.attached_taxon_namespace.is_case_sensitive)
+            else:
+                cs = bool(N[a["nsarg"]].is_case_sensitive) if a["nsarg"] else False
+            data = nexml_of(a["blocks"])
+            return (lambda: ds.read(data=data, schema="nexml", case_sensitive_taxon_labels=cs, **nskw(a["nsarg"]))), "read-nexml"
         if name == "DSAddList":
             via = pick("add", "add_tree_list")
             return (lambda: getattr(ds, via)(L[a["l"]])), via
